@@ -1,4 +1,5 @@
 """C17 - every call awaiting a reply completes exactly once."""
+import errno
 import json
 import os
 import re
@@ -182,8 +183,15 @@ def make_mb_case(rng):
         seqs.append(seq)
     seqs[1] = head + seqs[1]
     ops = [o for seq in seqs for o in seq]
+    hold_delay = rng.choice([30, 60, 120])
+    # a third of the cases: unrelated signals arrive while the threads wait, before the one write (this wakes the
+    # reader and makes the waiters go round their loops; it exposed the negative I/O-path timeout repaired by 85a2716)
+    mid = None
+    if rng.random() < 0.4:
+        mid = [rng.choice([2, 10, 25, 40]), rng.randint(2, 20), rng.randint(3, 10)]
+        hold_delay = mid[1] + mid[0] * mid[2] + rng.choice([20, 60])
     return {"nthreads": k + 1, "ncalls": k, "min_run_ms": 0, "drain_ms": 8000, "est_ms": 200, "peer_ms": 200, "ops": ";".join(ops),
-            "peer": {"calls": pcalls, "hold": k, "hold_delay": rng.choice([30, 60, 120]), "hold_noise": int(rng.random() < 0.25),
+            "peer": {"calls": pcalls, "hold": k, "hold_delay": hold_delay, "hold_noise": int(rng.random() < 0.25), "mid_noise": mid,
                      "ack": w_thread, "close": None, "noise": int(rng.random() < 0.3)},
             "mb": {"k": k, "watch_ms": MB_WATCH_MS, "timeouts": timeouts, "order": order, "swrb": w_thread}}
 
@@ -243,6 +251,10 @@ class Script(object):
             self.joined = b"".join(parts)
             pr.send_at(self.p.get("hold_delay", 0) / 1000.0, self.joined)
             self.held = []
+            # unrelated traffic while the threads wait, before the one write: [count, first_ms, gap_ms]
+            mn = self.p.get("mid_noise")
+            for i in range(mn[0] if mn else 0):
+                pr.send_at((mn[1] + i * mn[2]) / 1000.0, vpeer.signal(pr))
         cl = self.p.get("close")
         if cl and self.n == cl[0]:
             pr.close_at(cl[1] / 1000.0, flush=bool(cl[2]))
@@ -413,8 +425,9 @@ class Session(object):
         perr = list(pr.protocol_errors)
         if status != "ok":
             res = {"protocol_errors": perr}
-            if mb and status == "hang" and t_written is not None:
-                res["mb_silent_s"] = round(time.monotonic() - t_written, 1)
+            if mb and status == "hang":
+                if t_written is not None:
+                    res["mb_silent_s"] = round(time.monotonic() - t_written, 1)
                 if stacks and self.proc.poll() is None:
                     res["stacks"] = thread_stacks(self.proc.pid)
             res["rc"] = self._discard(kill=(status == "hang"))
@@ -503,6 +516,10 @@ def sanitizer_reports(text):
         out.append(("tsan:" + m.group(1), site, _excerpt(rest)))
         return out
     cls = hrun.classify_stderr(rest)
+    pm = re.search(r"pthread function (\w+) failed with (\d+) [^\n]*? in (\w+)", rest)
+    if not cls and pm:
+        # libdbus's own check of a pthread call's result (fatal in builds with checks enabled)
+        cls = ("pthread-failed:%s:%s:%s" % (pm.group(1), errno.errorcode.get(int(pm.group(2)), pm.group(2)), pm.group(3)), "?")
     if cls and not cls[0].startswith("tsan"):
         kind, site = cls
         if kind == "assert:not-reached":
@@ -526,7 +543,7 @@ def sanitizer_reports(text):
 
 FAMILIES = ("tsan-data-race", "tsan-other", "tsan-crash", "asan-use-after-free", "asan-crash", "asan-other",
             "ubsan-null-deref", "ubsan-other", "assert-double-completion", "assert-timeout-removed", "assert-other",
-            "other-crash")
+            "pthread-call-failed", "other-crash")
 
 
 def family(kind):
@@ -547,6 +564,8 @@ def family(kind):
         return "assert-double-completion"
     if kind.startswith("assert:not-reached:Nonexistent-timeout-was-removed"):
         return "assert-timeout-removed"
+    if kind.startswith("pthread-failed:"):
+        return "pthread-call-failed"
     if kind.startswith(("assert:", "api-check:", "invariant:")):
         return "assert-other"
     return "other-crash"
@@ -602,7 +621,8 @@ def judge_case(part, flavor, case, res, status, plog, err, final):
     if status == "hang":
         if not final:
             return True
-        part.violation("%s:hang:harness-stuck:%s" % (PROP, flavor), "the harness did not finish the script within the watchdog, twice", dict(wit, stderr=err[-3000:]))
+        part.violation("%s:hang:harness-stuck:%s" % (PROP, flavor), "the harness did not finish the script within the watchdog, twice",
+                       dict(wit, stderr=err[-3000:], result=res))
         return False
     if status == "died":
         if not judged_reports:
@@ -623,7 +643,13 @@ def judge_case(part, flavor, case, res, status, plog, err, final):
     findings, sigs, cnt = model.judge(res, plog)
     part.counters.update(cnt)
     if mb:
-        part.counters.update(model.judge_multi_blocker(res, plog, mb, [w for _, w in plog.reply_writes], res.get("peer_written_us")))
+        mcnt = model.judge_multi_blocker(res, plog, mb, [w for _, w in plog.reply_writes], res.get("peer_written_us"))
+        spread = mcnt.pop("mb-completion-lag-max-ms", 0)
+        part.counters.update(mcnt)
+        part.mb_spread_max = max(getattr(part, "mb_spread_max", 0), spread)
+        if spread > 100 and os.environ.get("VERIF_C17_MB_DEBUG"):
+            part.sample({"mb_lag_ms": spread, "flavor": flavor, "script": case_line(case), "peer": case["peer"],
+                         "events": ["%s t%d c%d %d" % (e["k"], e["t"], e["c"], e["us"]) for e in res["events"] if e["ph"] == 0]}, cap=12)
     mt = nth > 1
     for s in sigs:
         part.sig(s + (mt, flavor))
@@ -763,8 +789,14 @@ def run(tier, seed, replay=None, scale=1.0):
     for i in range(nshards):
         for flavor in ("asan", "tsan"):
             shards.append((seed, i, per, flavor, exes[flavor]))
+    spread_max = 0
     for part in report.run_sharded(_worker, shards):
+        spread_max = max(spread_max, getattr(part, "mb_spread_max", 0))
         r.merge(part)
+    # the longest a blocking wait of a multi-blocker case went on after the first one of its case had returned (or after its
+    # own start, if later): what the machine's load alone did to runs that were judged fine (compare with MB_WATCH_MS)
+    r.extra["mb_completion_lag_max_ms"] = spread_max
+    r.extra["mb_watch_ms"] = MB_WATCH_MS
     orders = set(x for x in r.signatures if isinstance(x, tuple) and x and x[0] == "order")
     r.signatures -= orders
     r.extra["distinct_completion_orders"] = len(orders)
